@@ -51,6 +51,7 @@ type Verifier struct {
 	modCache       map[*ssa.Function]*modSet
 	modInProgress  map[*ssa.Function]bool
 	axiomsUsed     map[string]bool
+	ctxOf          map[*Obligation]*Ctx
 }
 
 func (v *Verifier) note(s string) { v.notes[s] = true }
@@ -76,7 +77,7 @@ func loadProgram(repo string) (*Verifier, error) {
 	v := &Verifier{repo: repo, prog: prog, funcs: map[string]*ssa.Function{}, derived: map[string]int{},
 		assumeMath: map[string]bool{}, assumedCallees: map[string]bool{}, usedContracts: map[string]bool{}, trustedUsed: map[string]string{},
 		inlined: map[string]bool{}, notes: map[string]bool{}, modCache: map[*ssa.Function]*modSet{}, modInProgress: map[*ssa.Function]bool{},
-		axiomsUsed: map[string]bool{}}
+		axiomsUsed: map[string]bool{}, ctxOf: map[*Obligation]*Ctx{}}
 	if len(pkgs) > 0 {
 		v.fset = pkgs[0].Fset
 	}
@@ -334,6 +335,8 @@ func (v *Verifier) allocatedFact(c *Ctx, pv Val, nxt Term) {
 	}
 }
 
+const replayElems = 8
+
 func (v *Verifier) modelVarsFor(fr *Frame) []modelVar {
 	root := v.curRoot
 	if root == nil {
@@ -343,55 +346,74 @@ func (v *Verifier) modelVarsFor(fr *Frame) []modelVar {
 		return root.mvars
 	}
 	var out []modelVar
-	var walk func(name string, pv Val)
-	walk = func(name string, pv Val) {
-		switch pv.K {
-		case KInt, KBool, KRef, KIface, KFunc, KMap, KArr:
-			out = append(out, modelVar{name, pv.A})
-		case KStr:
-			out = append(out, modelVar{name + ".len", app("slen", pv.A)})
-		case KSlice:
-			out = append(out, modelVar{name + ".ref", pv.A}, modelVar{name + ".off", pv.Off}, modelVar{name + ".len", pv.Len}, modelVar{name + ".cap", pv.Cap})
-		case KLoc:
-			if pv.Loc.Ref != "" {
-				out = append(out, modelVar{name + ".ref", pv.Loc.Ref})
+	pkg := root.fn.Pkg.Pkg
+	tstr := func(t types.Type) string {
+		if t == nil {
+			return ""
+		}
+		return types.TypeString(t, func(p *types.Package) string {
+			if p == pkg {
+				return ""
 			}
-		case KStruct:
-			st := pv.T.Underlying().(*types.Struct)
-			for i, f := range pv.Fields {
-				walk(name+"."+st.Field(i).Name(), f)
+			return p.Name()
+		})
+	}
+	seen := map[string]bool{}
+	addPath := func(pe SExpr) {
+		name := pe.String()
+		if seen[name] {
+			return
+		}
+		seen[name] = true
+		func() {
+			defer func() { recover() }()
+			env := root.specEnv(root.entrySt, root.entrySt)
+			val := v.evalSpec(env, pe)
+			switch val.K {
+			case KInt, KBool:
+				out = append(out, modelVar{Name: "@" + name, Term: val.A, Path: name, Role: "scalar", GoType: tstr(val.T)})
+			case KRef, KMap, KIface, KFunc:
+				out = append(out, modelVar{Name: "@" + name, Term: val.A, Path: name, Role: "ptr", GoType: tstr(val.T)})
+			case KLoc:
+				if val.Loc.Ref != "" {
+					out = append(out, modelVar{Name: "@" + name, Term: val.Loc.Ref, Path: name, Role: "ptr", GoType: tstr(val.T)})
+				}
+			case KSlice:
+				out = append(out, modelVar{Name: "@len(" + name + ")", Term: val.Len, Path: name, Role: "len", GoType: tstr(val.T)})
+				out = append(out, modelVar{Name: "@ref(" + name + ")", Term: val.A, Path: name, Role: "sliceref", GoType: tstr(val.T)})
+				if sl, ok := val.T.Underlying().(*types.Slice); ok {
+					switch kindOf(sl.Elem()) {
+					case KInt, KBool:
+						for i := 0; i < replayElems; i++ {
+							l, et := root.elemLoc(val, num(int64(i)))
+							ev := root.loadLocQuiet(root.entrySt, l, et)
+							out = append(out, modelVar{Name: fmt.Sprintf("@%s[%d]", name, i), Term: ev.A, Path: name, Role: "elem", GoType: tstr(val.T), Index: i})
+						}
+					}
+				}
+			case KStr:
+				out = append(out, modelVar{Name: "@len(" + name + ")", Term: app("slen", val.A), Path: name, Role: "strlen", GoType: "string"})
+				for i := 0; i < replayElems; i++ {
+					out = append(out, modelVar{Name: fmt.Sprintf("@%s[%d]", name, i), Term: app("sbyte", val.A, num(int64(i))), Path: name, Role: "strbyte", GoType: "string", Index: i})
+				}
+			}
+		}()
+	}
+	if root.con != nil {
+		if root.con.Recv != nil {
+			addPath(&SIdent{root.con.Recv.Name})
+		}
+		for _, p := range root.con.Params {
+			if p.Name != "_" {
+				addPath(&SIdent{p.Name})
 			}
 		}
-	}
-	for i, p := range root.fn.Params {
-		walk(p.Name(), root.params[i])
-	}
-	// entry values of the paths mentioned in the contract
-	if root.con != nil {
-		seen := map[string]bool{}
 		var clauses []*Clause
 		clauses = append(clauses, root.con.Requires...)
 		clauses = append(clauses, root.con.Ensures...)
 		for _, cl := range clauses {
 			for _, pe := range collectPaths(cl.Expr, v, root) {
-				name := pe.String()
-				if seen[name] {
-					continue
-				}
-				seen[name] = true
-				func() {
-					defer func() { recover() }()
-					env := root.specEnv(root.entrySt, root.entrySt)
-					val := v.evalSpec(env, pe)
-					switch val.K {
-					case KInt, KBool, KRef, KIface, KMap:
-						out = append(out, modelVar{"@" + name, val.A})
-					case KSlice:
-						out = append(out, modelVar{"@len(" + name + ")", val.Len})
-					case KStr:
-						out = append(out, modelVar{"@len(" + name + ")", app("slen", val.A)})
-					}
-				}()
+				addPath(pe)
 			}
 		}
 	}
